@@ -563,7 +563,9 @@ func TestC13HostBinds(t *testing.T) {
 				for {
 					n, _, err := sentinel.ReadFrom(buf)
 					if err != nil {
-						t.Fatalf("VERIF-INFRA: marker did not arrive: %v", err)
+						// (a machine that stood still shows in the stall detector's VERIF-INFRA line,
+						// which takes precedence in the driver)
+						t.Fatalf("C13: a datagram sent to %s:4999 through the router was not handed to the open socket bound to that address within 5 s (%v)", own[0], err)
 					}
 					if string(buf[:n]) == "marker" {
 						break
